@@ -104,6 +104,9 @@ func genInt(t *rapid.T) IntCase {
 		c.Cmds, c.FailWrites = nil, nil
 	}
 	c.EndgameMax = rapid.SampledFrom([]int{1, 2, 20}).Draw(t, "eg")
+	if len(c.Adversaries) == 1 && c.Adversaries[0].CloseOnPieceDone && c.Cmds == nil {
+		c.EndgameMax = 1
+	}
 	return c
 }
 
@@ -363,7 +366,12 @@ func runInt(c IntCase) core.Result {
 		if c.WebSeed == 2 {
 			corrupting++
 		}
-		if st0 := tor.Stats(); st0.Status != torrent.Downloading || st0.Bytes.Wasted == 0 || corrupting != 1 {
+		// Attribution is only certain when nothing else can discard the piece before its hash is judged: no stop/start
+		// or failing write in the history (a stop drops pieces in flight), and no duplicate download of a piece.
+		if len(c.Cmds) > 0 || len(c.FailWrites) > 0 || c.EndgameMax != 1 || corrupting != 1 {
+			return
+		}
+		if st0 := tor.Stats(); st0.Status != torrent.Downloading || st0.Bytes.Wasted == 0 {
 			return
 		}
 		p, err := speer.Dial(st.ip, fmt.Sprintf("%s:%d", sess.IP(0), tor.Port()), mkOpts(10+i, false), 700*time.Millisecond)
